@@ -397,8 +397,15 @@ class Check:
             json.dump(ev, f, indent=1, default=str)
         print("%s %s: %d runs, %d distinct nontrivial, %.0fs wall, sim %.0fs, faults=%s" % (
             self.prop, tier, agg["runs"], len(agg["hashes"]), wall, agg["sim_ns"] / 1e9, agg["faults"]))
-        for sig, text in sorted(known_hits.items()):
-            print("KNOWN-FINDING: property=%s %s (%s)" % (self.prop, text, sig))
+        # one line per LISTED finding (whether or not this run's sample happened to reproduce it)
+        hit_patterns = set()
+        for msig in known_hits:
+            for k in known:
+                if fnmatch.fnmatchcase(str(msig), k[0]):
+                    hit_patterns.add(k[0])
+        for pat, text in known:
+            print("KNOWN-FINDING: property=%s %s [class %s; %s]" % (
+                self.prop, text, pat, "reproduced in this run" if pat in hit_patterns else "not sampled in this run"))
         if dirty:
             problems.append("/repo working tree changed while the check ran (checks must never write into /repo)")
         for (sig, path, detail) in violations:
